@@ -364,13 +364,13 @@ func (t *T) wellFormed() bool {
 		if t.Lo > t.Hi {
 			return false
 		}
-		if t.K == "StringSz" && (t.Lo == 0 || t.Lo == minI) && t.Hi == maxI {
-			return false // NewStringType returns String
+		if t.K == "StringSz" && t.Lo <= 0 && t.Hi == maxI {
+			return false // NewStringType returns String (every min <= 0 without a maximum, fix b11538b)
 		}
 	case "Float":
 		lo, hi := math.Float64frombits(t.FLo), math.Float64frombits(t.FHi)
-		if lo > hi {
-			return false
+		if lo > hi || lo != lo || hi != hi {
+			return false // NewFloatType rejects min > max and a NaN bound
 		}
 	case "Tuple":
 		if t.HasSize && t.Lo > t.Hi {
